@@ -2,7 +2,7 @@
    source of the functions they stand for (tools/translate_fns.py -> Gen/Fns.v).  Re-checked whenever the
    generated file changes: a changed _slice_val_to_idx, AnsiSetting.valid or seq_starts_with_fn either
    fails to translate (fail closed) or has to satisfy these lemmas again. *)
-From Coq Require Import ZArith List Bool Lia.
+From Coq Require Import ZArith List Bool Lia ZifyBool.
 From AS Require Import Base.
 From AS.Gen Require Import Fns.
 From AS.Model Require Import Sgr.
@@ -12,12 +12,12 @@ Import ListNotations.
 Lemma slice_idx_is_code : forall (len : nat) (v : option Z) (d : nat),
   Z.of_nat (slice_idx len v d) = gen_slice_val_to_idx (Z.of_nat len) v (Z.of_nat d).
 Proof.
+  (* shape-independent: case split on every test that occurs, linear arithmetic for the rest (so that a
+     behaviour-preserving rewrite of the Python function - max() instead of an if, a swapped test - still
+     satisfies the obligation) *)
   intros len v d. unfold slice_idx, gen_slice_val_to_idx. destruct v as [z|]; [|reflexivity].
-  destruct (z <? 0)%Z eqn:E.
-  - apply Z.ltb_lt in E. destruct (Z.of_nat len + z <? 0)%Z eqn:E2.
-    + apply Z.ltb_lt in E2. rewrite Z.max_l by lia. reflexivity.
-    + apply Z.ltb_ge in E2. rewrite Z.max_r by lia. rewrite Z2Nat.id by lia. reflexivity.
-  - apply Z.ltb_ge in E. rewrite Z2Nat.id by lia. reflexivity.
+  cbv zeta.
+  repeat match goal with |- context [if ?b then _ else _] => destruct b eqn:? end; lia.
 Qed.
 
 (* AnsiSetting.valid is Sgr.valid *)
@@ -28,11 +28,14 @@ Lemma valid_is_code : forall t : str, valid t = gen_valid (map Z.of_N t).
 Proof.
   intros t. unfold valid, gen_valid. f_equal. rewrite existsb_map. induction t as [|c t IH]; [reflexivity|].
   cbn [existsb]. rewrite IH. f_equal. unfold is_final.
-  assert (H1 : (64 <=? c)%N = (64 <=? Z.of_N c)%Z).
-  { destruct (N.leb_spec 64 c); symmetry; [apply Z.leb_le | apply Z.leb_gt]; lia. }
-  assert (H2 : (c <=? 126)%N = (Z.of_N c <=? 126)%Z).
-  { destruct (N.leb_spec c 126); symmetry; [apply Z.leb_le | apply Z.leb_gt]; lia. }
-  now rewrite H1, H2.
+  (* pointwise, shape-independent: both sides are boolean combinations of linear comparisons of c *)
+  repeat match goal with
+         | |- context [(?a <=? ?b)%N] => destruct (N.leb_spec a b)
+         | |- context [(?a <? ?b)%N] => destruct (N.ltb_spec a b)
+         | |- context [(?a <=? ?b)%Z] => destruct (Z.leb_spec a b)
+         | |- context [(?a <? ?b)%Z] => destruct (Z.ltb_spec a b)
+         | |- context [(?a =? ?b)%Z] => destruct (Z.eqb_spec a b)
+         end; cbn; try reflexivity; lia.
 Qed.
 
 (* _AnsiControlFn.seq_starts_with_fn is a prefix test *)
